@@ -203,6 +203,11 @@ func emStructured(pc *pcase) []smut {
 		}
 		out = append(out, smut{kind: kind, label: label, key: pc.key, alg: pc.alg, msg: pc.msg, sig: r.private(em)})
 	}
+	// the genuine signature plus the modulus: the same residue, but not below n (RFC 8017 §5.2.2 step 1:
+	// "signature representative out of range"); exists whenever s+n still has k octets.
+	if sn := new(big.Int).Add(new(big.Int).SetBytes(pc.sig), r.n); len(pc.sig) == r.k && sn.BitLen() <= 8*r.k {
+		out = append(out, smut{kind: "rsa-sig-not-below-n", label: "signature s replaced by s+n (same length)", key: pc.key, alg: pc.alg, msg: pc.msg, sig: sn.FillBytes(make([]byte, r.k))})
+	}
 	if !pc.alg.pss {
 		t := digestInfoDER(h, dg, true)
 		good, ok := emPKCS1(t, r.k)
@@ -218,6 +223,9 @@ func emStructured(pc *pcase) []smut {
 		}
 		if e, ok := emPKCS1(dg, r.k); ok {
 			mk("em-pkcs1-digestinfo", "bare digest without DigestInfo", e)
+		}
+		for _, lead := range []byte{0x01, 0x02, 0x80, 0xff} {
+			mk("em-pkcs1-leading-octet", fmt.Sprintf("first octet %02x instead of 00", lead), mod(func(em []byte) { em[0] = lead }))
 		}
 		mk("em-pkcs1-padding", "block type 00", mod(func(em []byte) { em[1] = 0 }))
 		mk("em-pkcs1-padding", "block type 02", mod(func(em []byte) { em[1] = 2 }))
@@ -266,6 +274,68 @@ func emStructured(pc *pcase) []smut {
 	bad := append([]byte{}, dg...)
 	bad[len(bad)-1] ^= 1
 	pss("em-pss-mhash", "mHash last byte ^01", bad, salt, pssTweak{})
+
+	// Representatives that differ from a CORRECT encoded message only outside its emBits bits: a non-zero
+	// surplus octet in front of EM (moduli of 8k+1 bits, where emLen = k-1) and set bits among the
+	// 8emLen-emBits leftmost bits of EM. RFC 8017 §8.1.2 step 2c (I2OSP to emLen octets fails) / §9.1.2
+	// step 6 reject them. The representative must stay below n, which depends on the value of EM: the first
+	// of 256 fixed salts whose deviating representative is below n is taken.
+	emLen := (emBits + 7) / 8
+	if emLen < hl+hl+2 {
+		return out
+	}
+	saltN := func(try int) []byte {
+		sl := make([]byte, hl)
+		for j := range sl {
+			sl[j] = byte(j*5 + 1 + 31*try)
+		}
+		return sl
+	}
+	if em, ok := emPSS(h, dg, saltN(0), emBits, pssTweak{}); ok {
+		if len(em) < r.k {
+			em = append(make([]byte, r.k-len(em)), em...)
+		}
+		// the unmodified harness-made encoding is a valid signature: it must verify (keeps the deviations below honest)
+		out = append(out, smut{kind: "em-pss-valid(harness-made encoding, fixed salt)", label: "correct EMSA-PSS made by the harness", key: pc.key, alg: pc.alg, msg: pc.msg, sig: r.private(em), mall: true})
+	}
+	firstBelowN := func(kind, label string, f func(em []byte) []byte) {
+		for try := 0; try < 256; try++ {
+			em, ok := emPSS(h, dg, saltN(try), emBits, pssTweak{})
+			if !ok {
+				return
+			}
+			rep := f(append(make([]byte, r.k-len(em)), em...))
+			if new(big.Int).SetBytes(rep).Cmp(r.n) < 0 {
+				mk(kind, fmt.Sprintf("%s (fixed salt #%d)", label, try), rep)
+				return
+			}
+		}
+	}
+	if emLen < r.k {
+		for _, lead := range []byte{0x01, 0x02, 0x7f, 0x80, 0xff} {
+			if new(big.Int).Lsh(big.NewInt(int64(lead)), uint(8*emLen)).Cmp(r.n) >= 0 {
+				continue // no value of this shape is below n
+			}
+			firstBelowN("em-pss-surplus-octet", fmt.Sprintf("octet %02x in front of a correct EM (emLen = k-1)", lead), func(rep []byte) []byte { rep[0] = lead; return rep })
+		}
+	}
+	nb := 8*emLen - emBits
+	for j := 0; j <= nb && nb > 0; j++ {
+		var bitsSet byte
+		var label string
+		if j < nb {
+			bitsSet = 0x80 >> uint(j)
+			label = fmt.Sprintf("bit %d (of the %d leftmost, masked bits) of a correct EM set", j, nb)
+		} else {
+			bitsSet = ^(byte(0xff) >> uint(nb))
+			label = fmt.Sprintf("all %d leftmost, masked bits of a correct EM set", nb)
+		}
+		v := new(big.Int).Lsh(big.NewInt(int64(bitsSet)), uint(8*(emLen-1)))
+		if v.Cmp(r.n) >= 0 {
+			continue
+		}
+		firstBelowN("em-pss-masked-bits", label, func(rep []byte) []byte { rep[r.k-emLen] |= bitsSet; return rep })
+	}
 	return out
 }
 
@@ -441,6 +511,9 @@ func boolS(b bool) string {
 func judge(c *ev.Ctx, st *primStats, pc string, baseScheme string, m smut, baseline bool) {
 	zok, zclass, pan := zverify(m.key, m.alg.alg, m.msg, m.sig)
 	st.trans++
+	if m.key.fam == famRSA && m.alg.pss && m.alg.usable && m.kind != "sig-bitflip" && m.kind != "msg-bitflip" {
+		directPSS(c, st, pc, m, baseline)
+	}
 	if c.Quick() && !zok && pan == "" && (m.kind == "sig-bitflip" || m.kind == "msg-bitflip") {
 		// quick tier: a rejected bit flip already is what the property demands whatever the reference
 		// says (no bit flip of a genuine signature is "produced by the key"); the standard library is
@@ -509,7 +582,7 @@ func judge(c *ev.Ctx, st *primStats, pc string, baseScheme string, m smut, basel
 }
 
 func quickKeys() []string {
-	return []string{"rsa1024", "rsa1024b", "rsa1025", "rsa2048", "rsa1024e33",
+	return []string{"rsa1024", "rsa1024b", "rsa1025", "rsadet1025", "rsadet1026", "rsadet1031", "rsa2048", "rsa1024e33",
 		"p224", "p256", "p256b", "p384", "p521", "ed-a", "ed-b", "dsa1024", "dsa2048",
 		"p256aug", "dsa2048q224"}
 }
@@ -592,6 +665,31 @@ func runPrim(c *ev.Ctx) {
 		if pc != nil {
 			live = append(live, pc)
 		}
+	}
+	// non-vacuity of the value-dependent RSA representatives: every key with emLen = k-1 must have got its
+	// "octet in front of EM" forgery, every key with masked bits its "masked bit set" forgery, on every PSS case.
+	for _, pc := range live {
+		if pc.key.fam != famRSA || !pc.alg.pss {
+			continue
+		}
+		var surplus, masked int
+		for _, m := range pc.st {
+			switch m.kind {
+			case "em-pss-surplus-octet":
+				surplus++
+			case "em-pss-masked-bits":
+				masked++
+			}
+		}
+		nbits := pc.key.ref.n.BitLen()
+		if nbits%8 == 1 && surplus == 0 {
+			c.Incomplete(fmt.Sprintf("part 1: no representative 01||EM below n among 256 salts for %s", pc.id()))
+		}
+		if nbits%8 != 1 && masked == 0 {
+			c.Incomplete(fmt.Sprintf("part 1: no EM with a masked bit set below n among 256 salts for %s", pc.id()))
+		}
+		c.Outcome("RSA-PSS case: representatives with a non-zero surplus octet in front of a correct EM", int64(surplus))
+		c.Outcome("RSA-PSS case: representatives with masked leftmost bits of a correct EM set", int64(masked))
 	}
 	c.Outcome("(key,alg,msg) incompatible by family or unsupported algorithm: no genuine signature exists", incompat)
 	if signErr > 0 {
